@@ -716,7 +716,7 @@ pub fn main(opts: &Opts) {
         .map(|p| std::fs::read_to_string(p).unwrap_or_default().contains("case\tlongsession;"))
         .unwrap_or(false);
     if replay_long || (opts.replay.is_none() && !only_drop && !opts.extra.iter().any(|e| e == "only-close")) {
-        let rounds = if opts.thorough() { 22000 } else { 2200 };
+        let rounds = if opts.thorough() { 12000 } else { 1500 };
         let case = format!("longsession;rounds={rounds}");
         progress(&case);
         let rt = tokio::runtime::Builder::new_current_thread().enable_all().build().unwrap();
@@ -725,6 +725,7 @@ pub fn main(opts: &Opts) {
             peer.deliver(mt::hello(&[mt::CAP_BASE10], 4));
             let mut s = Session::verif_new(t).await.map_err(|e| format!("session: {e}"))?;
             let mut nsent = 1usize; // the client's hello
+            let mut val = 0usize;
             let reply = |id: &str, v: usize| {
                 format!(
                     "<rpc-reply xmlns=\"{}\" message-id=\"{id}\"><data>{v}</data></rpc-reply>]]>]]>",
@@ -732,36 +733,57 @@ pub fn main(opts: &Opts) {
                 )
             };
             let limit = std::time::Duration::from_secs(3);
-            for r in 0..rounds {
-                let fx = s.rpc::<Get, _>(|b| b.finish()).await.map_err(|e| format!("round {r}: rpc X: {e}"))?;
-                let fy = s.rpc::<Get, _>(|b| b.finish()).await.map_err(|e| format!("round {r}: rpc Y: {e}"))?;
-                let sent = peer.sent();
-                let idx = mt::message_id_of(&sent[nsent]).unwrap_or_default();
-                let idy = mt::message_id_of(&sent[nsent + 1]).unwrap_or_default();
-                nsent += 2;
-                peer.deliver(reply(&idx, 3 * r));
-                peer.deliver(reply(&idy, 3 * r + 1));
-                let y = tokio::time::timeout(limit, fy).await.map_err(|_| format!("round {r}: Y pending"))?;
-                if y.as_ref().map(|v| v.to_string()).ok() != Some((3 * r + 1).to_string()) {
-                    return Err(format!("round {r} (request {}): Y got {:?}", nsent - 1, y.map(|v| v.to_string()).map_err(|e| e.to_string())));
-                }
-                let fz = s.rpc::<Get, _>(|b| b.finish()).await.map_err(|e| format!("round {r}: rpc Z: {e}"))?;
-                let idz = mt::message_id_of(&peer.sent()[nsent]).unwrap_or_default();
-                nsent += 1;
-                peer.deliver(reply(&idz, 3 * r + 2));
-                let x = tokio::time::timeout(limit, fx).await.map_err(|_| format!("round {r}: X pending"))?;
-                if x.as_ref().map(|v| v.to_string()).ok() != Some((3 * r).to_string()) {
-                    return Err(format!(
-                        "round {r} (request {} of the session): the parked reply of X was not delivered: {:?}",
-                        nsent - 3,
-                        x.map(|v| v.to_string()).map_err(|e| e.to_string())
-                    ));
-                }
-                let z = tokio::time::timeout(limit, fz).await.map_err(|_| format!("round {r}: Z pending"))?;
-                if z.as_ref().map(|v| v.to_string()).ok() != Some((3 * r + 2).to_string()) {
-                    return Err(format!("round {r}: Z got {:?}", z.map(|v| v.to_string()).map_err(|e| e.to_string())));
-                }
+            // a rolling pipeline: at EVERY registration of a request the reply to an earlier request
+            // (`old`) is parked for a caller that has not collected it yet
+            macro_rules! send {
+                () => {{
+                    let f = s.rpc::<Get, _>(|b| b.finish()).await.map_err(|e| format!("request {nsent}: rpc: {e}"))?;
+                    let id = mt::message_id_of(&peer.sent_at(nsent)).unwrap_or_default();
+                    nsent += 1;
+                    val += 1;
+                    let f: Pin<Box<dyn Future<Output = Result<String, String>>>> =
+                        Box::pin(async move { f.await.map(|v| v.to_string()).map_err(|e| e.to_string()) });
+                    (f, id, val, nsent - 1)
+                }};
             }
+            macro_rules! collect {
+                ($f:expr, $v:expr, $n:expr, $what:expr) => {{
+                    let r = tokio::time::timeout(limit, $f).await.map_err(|_| format!("request {} ({}) pending", $n, $what))?;
+                    if r.as_ref().ok() != Some(&$v.to_string()) {
+                        return Err(format!(
+                            "request {} of the session ({}; {} sent by now): {}: {:?}",
+                            $n,
+                            $what,
+                            nsent - 1,
+                            if $what == "parked" { "the parked reply was not delivered" } else { "wrong result" },
+                            r
+                        ));
+                    }
+                }};
+            }
+            let mut lrng = Rng::new(opts.seed ^ 0x10f5);
+            let (fo, ido, vo, no) = send!();
+            let (fy, idy, vy, ny) = send!();
+            peer.deliver(reply(&ido, vo));
+            peer.deliver(reply(&idy, vy));
+            collect!(fy, vy, ny, "reader");
+            let (mut old, mut vold, mut nold) = (fo, vo, no);
+            for _r in 0..rounds {
+                for _ in 0..lrng.below(7) {
+                    let (fz, idz, vz, nz) = send!();
+                    peer.deliver(reply(&idz, vz));
+                    collect!(fz, vz, nz, "filler");
+                }
+                let (fc, idc, vc, nc) = send!();
+                let (fd, idd, vd, nd) = send!();
+                peer.deliver(reply(&idc, vc));
+                peer.deliver(reply(&idd, vd));
+                collect!(fd, vd, nd, "reader");
+                collect!(old, vold, nold, "parked");
+                (old, vold, nold) = (fc, vc, nc);
+            }
+            collect!(old, vold, nold, "parked");
+            SENT_TOTAL.store(nsent as u64, std::sync::atomic::Ordering::SeqCst);
             Ok(())
         });
         progress_idle();
@@ -773,14 +795,17 @@ pub fn main(opts: &Opts) {
             match &out {
                 Ok(()) => "ok".to_string(),
                 Err(e) if e.contains("parked reply") => "violation parked-reply-lost-in-long-session".to_string(),
+                Err(e) if e.contains("rpc:") => "violation request-refused-in-long-session".to_string(),
                 Err(e) if e.contains("pending") => "violation request-not-completed-in-long-session".to_string(),
                 Err(_) => "violation wrong-reply-in-long-session".to_string(),
             },
         );
-        sink.add("longsession.requests", 3 * rounds as u64);
+        sink.add("longsession.requests", SENT_TOTAL.load(std::sync::atomic::Ordering::SeqCst));
     }
     sink.write(opts, "sched");
 }
+
+static SENT_TOTAL: std::sync::atomic::AtomicU64 = std::sync::atomic::AtomicU64::new(0);
 
 fn heap(a: &mut Vec<usize>, k: usize, out: &mut Vec<Vec<usize>>) {
     if k == 1 {
